@@ -146,14 +146,16 @@ def equivalence_shapes():
     fr = ["#[derive(derive_more::From, PartialEq, Clone, Copy)]\n#[from(u8, u16)]\npub struct S(pub u32);",
           "#[derive(derive_more::From, PartialEq, Clone, Copy)]\n#[from(u8)]\n#[from(u16)]\npub struct S(pub u32);",
           "#[derive(derive_more::From, PartialEq, Clone, Copy)]\n#[from(u16)]\n#[from(u8)]\npub struct S(pub u32);",
-          "#[derive(derive_more::From, PartialEq, Clone, Copy)]\n#[from(u8, u16,)]\npub struct S(pub u32);"]
+          "#[derive(derive_more::From, PartialEq, Clone, Copy)]\n#[from(u8, u16,)]\npub struct S(pub u32);",
+          "#[derive(derive_more::From, PartialEq, Clone, Copy)]\n#[from(u8,)]\n#[from(u16)]\npub struct S(pub u32);",
+          "#[derive(derive_more::From, PartialEq, Clone, Copy)]\n#[from(u16,)]\n#[from(u8,)]\npub struct S(pub u32);"]
     out.append(family("from_types_struct", fr,
                       harness("        let x: u8 = kani::any();\n        let y: u16 = kani::any();\n",
                               lambda i: "(m%d::S::from(x).0, m%d::S::from(y).0)" % (i, i), len(fr)),
                       "x: u8, y: u16 symbolic", "From<u8> and From<u16> give the same field value under every spelling",
                       ["impl/src/from.rs::expand", "impl/src/utils.rs::attr::Conversion / Types (merge of repeated attributes)"]))
     fv = lambda a, b: ("#[derive(derive_more::From, PartialEq, Clone, Copy)]\npub enum E { %s A(u32), %s B(u64), C(i8) }" % (a, b))
-    frv = [fv("#[from(u8, u16)]", "#[from(skip)]"), fv("#[from(u8)] #[from(u16)]", "#[from(ignore)]"), fv("#[from(u16, u8,)]", "#[from(ignore)]")]
+    frv = [fv("#[from(u8, u16)]", "#[from(skip)]"), fv("#[from(u8)] #[from(u16)]", "#[from(ignore)]"), fv("#[from(u16, u8,)]", "#[from(ignore)]"), fv("#[from(u8,)] #[from(u16)]", "#[from(skip)]")]
     out.append(family("from_types_and_skip_variant", frv,
                       harness("        let x: u8 = kani::any();\n        let y: u16 = kani::any();\n",
                               lambda i: "(match m%d::E::from(x) { m%d::E::A(v) => v as u64, m%d::E::B(v) => v + (1 << 40), m%d::E::C(_) => 1 << 50 }, "
@@ -170,7 +172,10 @@ def equivalence_shapes():
     into_t = ["#[derive(derive_more::Into, Clone, Copy)]\n#[into(u16, u32)]\npub struct S(pub u8);",
               "#[derive(derive_more::Into, Clone, Copy)]\n#[into(u16)]\n#[into(u32)]\npub struct S(pub u8);",
               "#[derive(derive_more::Into, Clone, Copy)]\n#[into(u32)]\n#[into(u16)]\npub struct S(pub u8);",
-              "#[derive(derive_more::Into, Clone, Copy)]\n#[into(u16, u32,)]\npub struct S(pub u8);"]
+              "#[derive(derive_more::Into, Clone, Copy)]\n#[into(u16, u32,)]\npub struct S(pub u8);",
+              "#[derive(derive_more::Into, Clone, Copy)]\n#[into(u16,)]\n#[into(u32)]\npub struct S(pub u8);",
+              "#[derive(derive_more::Into, Clone, Copy)]\n#[into(owned(u16), owned(u32))]\npub struct S(pub u8);",
+              "#[derive(derive_more::Into, Clone, Copy)]\n#[into(owned(u16,), owned(u32,),)]\npub struct S(pub u8);"]
     out.append(family("into_types", into_t,
                       harness("        let x: u8 = kani::any();\n", lambda i: "(u16::from(m%d::S(x)), u32::from(m%d::S(x)))" % (i, i), len(into_t)),
                       "x: u8 symbolic", "Into<u16> and Into<u32> give the same values under every spelling",
@@ -219,7 +224,8 @@ def equivalence_shapes():
     art = ["#[derive(derive_more::AsRef)]\n#[as_ref(u32, [u8; 3])]\npub struct S(pub Inner);",
            "#[derive(derive_more::AsRef)]\n#[as_ref(u32)]\n#[as_ref([u8; 3])]\npub struct S(pub Inner);",
            "#[derive(derive_more::AsRef)]\n#[as_ref([u8; 3])]\n#[as_ref(u32)]\npub struct S(pub Inner);",
-           "#[derive(derive_more::AsRef)]\n#[as_ref(u32, [u8; 3],)]\npub struct S(pub Inner);"]
+           "#[derive(derive_more::AsRef)]\n#[as_ref(u32, [u8; 3],)]\npub struct S(pub Inner);",
+           "#[derive(derive_more::AsRef)]\n#[as_ref(u32,)]\n#[as_ref([u8; 3])]\npub struct S(pub Inner);"]
     out.append(family("as_ref_types", art,
                       harness("        let inner = any_inner();\n",
                               lambda i: ("let s = m%d::S(inner); (ptr::eq::<u32>(s.as_ref(), &s.0.tag), ptr::eq::<[u8; 3]>(s.as_ref(), &s.0.items))") % i, len(art)),
@@ -386,6 +392,47 @@ REJECT = [
     ("absent_into_owned_with_ref_ref_mut_one_list", "absent-impl", "#[derive(derive_more::Into)] #[into(ref, ref_mut)] pub struct S(u8); pub fn f(s: S) -> u8 { s.into() }"),
     ("absent_into_owned_with_ref_ref_mut_two_attrs", "absent-impl", "#[derive(derive_more::Into)] #[into(ref)] #[into(ref_mut)] pub struct S(u8); pub fn f(s: S) -> u8 { s.into() }"),
     ("absent_into_owned_with_ref_ref_mut_two_attrs_rev", "absent-impl", "#[derive(derive_more::Into)] #[into(ref_mut)] #[into(ref)] pub struct S(u8); pub fn f(s: S) -> u8 { s.into() }"),
+    # a wrong argument in a position that only one code path looks at: a field under a container / variant format, the second field or
+    # variant, something next to an ignored sibling (seed C17-debug-field-attr-errors-dropped-under-container-fmt)
+    ("pos_add_assign_attr", "position", '#[derive(derive_more::MulAssign)] #[mul_assign(forwards)] pub struct S(u8);'),
+    ("pos_as_mut_second_field_bad", "position", '#[derive(derive_more::AsMut)] pub struct S { #[as_mut(skip)] a: u8, #[as_mut(forward = true)] b: u16, c: u32 }'),
+    ("pos_as_ref_second_field_bad", "position", '#[derive(derive_more::AsRef)] pub struct S { #[as_ref] a: u8, #[as_ref(forward = true)] b: u16 }'),
+    ("pos_dbg_cfmt_dup_skip_field", "position", '#[derive(derive_more::Debug)] #[debug("{a}")] pub struct S { #[debug(skip)] #[debug(ignore)] a: u8 }'),
+    ("pos_dbg_cfmt_fmt_field", "position", '#[derive(derive_more::Debug)] #[debug("{a}")] pub struct S { #[debug("{a:?}")] a: u8 }'),
+    ("pos_dbg_cfmt_legacy_field", "position", '#[derive(derive_more::Debug)] #[debug("{a}")] pub struct S { #[debug(fmt = "{}", a)] a: u8 }'),
+    ("pos_dbg_cfmt_skip_fmt_field", "position", '#[derive(derive_more::Debug)] #[debug("{a}")] pub struct S { #[debug(skip)] #[debug("{a:?}")] a: u8 }'),
+    ("pos_dbg_cfmt_unknown_field", "position", '#[derive(derive_more::Debug)] #[debug("{a}")] pub struct S { #[debug(unknown)] a: u8 }'),
+    ("pos_dbg_enum_unknown_in_second_variant", "position", '#[derive(derive_more::Debug)] pub enum E { A(u8), B { #[debug(unknown)] x: u8 } }'),
+    ("pos_dbg_skip_all_unknown", "position", '#[derive(derive_more::Debug)] pub struct S { #[debug(skip)] a: u8, #[debug(unknown)] b: u8 }'),
+    ("pos_dbg_tuple_unknown_second", "position", '#[derive(derive_more::Debug)] pub struct S(u8, #[debug(unknown)] u8);'),
+    ("pos_dbg_unit_struct_fmt_dup", "position", '#[derive(derive_more::Debug)] #[debug("x")] #[debug("y")] pub struct S;'),
+    ("pos_dbg_vfmt_dup_skip_field", "position", '#[derive(derive_more::Debug)] pub enum E { #[debug("{_0}")] A(#[debug(skip)] #[debug(skip)] u8), B }'),
+    ("pos_dbg_vfmt_legacy_field", "position", '#[derive(derive_more::Debug)] pub enum E { #[debug("{a}")] A { #[debug(fmt = "x")] a: u8 }, B }'),
+    ("pos_dbg_vfmt_unknown_field", "position", '#[derive(derive_more::Debug)] pub enum E { #[debug("{_0}")] A(#[debug(unknown)] u8), B }'),
+    ("pos_deref_ignored_field_bad_other", "position", '#[derive(derive_more::Deref)] pub struct S { #[deref(ignore)] a: u8, #[deref(bogus)] b: u8 }'),
+    ("pos_deref_mut_bad", "position", '#[derive(derive_more::Deref, derive_more::DerefMut)] pub struct S { #[deref] #[deref_mut(bogus)] a: u8, b: u8 }'),
+    ("pos_disp_enum_shared_and_variant_dup", "position", '#[derive(derive_more::Display)] #[display("<{_variant}>")] pub enum E { #[display("x")] #[display("y")] A, B }'),
+    ("pos_disp_second_variant_unknown", "position", '#[derive(derive_more::Display)] pub enum E { #[display("a")] A, #[display(unknown)] B }'),
+    ("pos_disp_variant_legacy", "position", '#[derive(derive_more::Display)] pub enum E { #[display(fmt = "x")] A, B }'),
+    ("pos_disp_variant_unknown", "position", '#[derive(derive_more::Display)] pub enum E { #[display(unknown)] A, B }'),
+    ("pos_err_enum_ignore_bad_variant", "position", '#[derive(Debug, derive_more::Display, derive_more::Error)] #[display("x")] #[error(ignore)] pub enum E { #[error(sauce)] A { a: u8 }, B }'),
+    ("pos_err_second_field_bad", "position", '#[derive(Debug, derive_more::Display, derive_more::Error)] #[display("x")] pub struct S { #[error(source)] a: std::io::Error, #[error(sauce)] b: u8 }'),
+    ("pos_err_struct_ignore_bad_field", "position", '#[derive(Debug, derive_more::Display, derive_more::Error)] #[display("x")] #[error(ignore)] pub struct S { #[error(sauce)] a: u8 }'),
+    ("pos_err_variant_ignore_bad_field", "position", '#[derive(Debug, derive_more::Display, derive_more::Error)] #[display("x")] pub enum E { #[error(ignore)] A { #[error(sauce)] a: u8 }, B }'),
+    ("pos_from_second_variant_bad", "position", '#[derive(derive_more::From)] pub enum E { A(u8), #[from(bogus = 1)] B(u16) }'),
+    ("pos_from_skipped_then_bad", "position", '#[derive(derive_more::From)] pub enum E { #[from(skip)] A(u8), #[from(types(u8))] B(u16) }'),
+    ("pos_index_bad_second", "position", '#[derive(derive_more::Index)] pub struct S { #[index] a: Vec<u8>, #[index(bogus)] b: u8 }'),
+    ("pos_into_iter_bad_second", "position", '#[derive(derive_more::IntoIterator)] pub struct S { #[into_iterator] a: Vec<u8>, #[into_iterator(bogus)] b: u8 }'),
+    ("pos_into_skipped_field_then_bad", "position", '#[derive(derive_more::Into)] pub struct S { #[into(skip)] a: u8, #[into(types(u16))] b: u8 }'),
+    ("pos_into_struct_skip_fields_bad", "position", '#[derive(derive_more::Into)] #[into(ref)] pub struct S { a: u8, #[into(owned = true)] b: u8 }'),
+    ("pos_isv_ignored_enum_bad_variant", "position", '#[derive(derive_more::IsVariant)] #[is_variant(ignore)] pub enum E { #[is_variant(bogus)] A, B }'),
+    ("pos_isv_last_variant_bad", "position", '#[derive(derive_more::IsVariant)] pub enum E { A, B, #[is_variant(bogus)] C }'),
+    ("pos_mul_field_bad", "position", '#[derive(derive_more::Mul)] #[mul(forward)] pub struct S { #[mul(bogus)] a: u8 }'),
+    ("pos_try_into_ignored_variant_bad_field", "position", '#[derive(derive_more::TryInto)] pub enum E { #[try_into(ignore)] A(#[try_into(bogus)] u8), B(u16) }'),
+    ("pos_try_into_last_variant_bad", "position", '#[derive(derive_more::TryInto)] pub enum E { A(u8), #[try_into(bogus)] B(u16) }'),
+    ("pos_try_unwrap_last_variant_bad", "position", '#[derive(derive_more::TryUnwrap)] pub enum E { A(u8), #[try_unwrap(bogus)] B(u16) }'),
+    ("pos_unwrap_ignored_variant_bad_field", "position", '#[derive(derive_more::Unwrap)] pub enum E { #[unwrap(ignore)] A(#[unwrap(bogus)] u8), B(u16) }'),
+    ("pos_unwrap_last_variant_bad", "position", '#[derive(derive_more::Unwrap)] pub enum E { A(u8), #[unwrap(bogus)] B(u16) }'),
     # an attribute of the enum itself where the derive only reads its variants' (open finding: silently ignored)
     ("kind_from_forward_enum", "item-kind", "#[derive(derive_more::From)] #[from(forward)] pub enum E { A(u8), B(u16) }"),
     ("kind_from_types_enum", "item-kind", "#[derive(derive_more::From)] #[from(u8)] pub enum E { A(u16), B(u32) }"),
